@@ -14,6 +14,7 @@ from __future__ import annotations
 
 import collections
 import difflib
+import os
 import random
 
 from vf import common, pool
@@ -94,7 +95,7 @@ def make_others(seed):
 def _task(batch_id, progs, others, cfg, seed):
   c = dict(cfg)
   c["perturb_seed"] = f"{seed}-{batch_id}-{cfg['name']}"
-  return {"fn": "vf.checks.c04:child", "id": f"{batch_id}|{cfg['name']}", "timeout": 2400,
+  return {"fn": "vf.checks.c04:child", "id": f"{batch_id}|{cfg['name']}", "timeout": 5400,
           "hashseed": cfg["hashseed"],
           "arg": {"programs": [{"id": p["id"], "src": p["src"]} for p in progs], "others": others, "config": c}}
 
@@ -102,7 +103,6 @@ def _task(batch_id, progs, others, cfg, seed):
 def attribute(cfgs_by_digest):
   """cfgs_by_digest: {digest: [config dicts]} (>=2 digests) -> axis string."""
   groups = list(cfgs_by_digest.values())
-  allc = [c for g in groups for c in g]
 
   def splits(pred):
     vals = [{bool(pred(c)) for c in g} for g in groups]
@@ -110,8 +110,8 @@ def attribute(cfgs_by_digest):
 
   if splits(lambda c: c.get("reuse_loader")):
     return "reused Loader vs fresh Loader"
-  if splits(lambda c: c.get("isolated") or (not c.get("j") and not c.get("reuse_loader") and False)):
-    return "isolated process vs any in-process history"
+  if splits(lambda c: c.get("isolated")):
+    return "isolated hash-seed-0 process vs every other configuration"
   if splits(lambda c: c.get("j", 0) > 0):
     return "other programs analysed earlier in the process"
   by_seed = collections.defaultdict(set)
@@ -121,7 +121,6 @@ def attribute(cfgs_by_digest):
         by_seed[c["hashseed"]].add(d)
   if all(len(v) == 1 for v in by_seed.values()) and len({next(iter(v)) for v in by_seed.values()}) > 1:
     return "PYTHONHASHSEED"
-  del allc
   return "unattributed (address layout / gc / mixed factors)"
 
 
@@ -165,7 +164,8 @@ def compare_program(prog, runs, cfg_by_name):
 
 def run(tier, seed):
   ck = common.Check(PID, tier, seed, rule=RULE)
-  nprog, bsize = (48, 8) if tier == "quick" else (400, 8)
+  nprog, bsize = (40, 8) if tier == "quick" else (400, 8)
+  nprog = int(os.environ.get("VERIF_C04_NPROG", nprog))   # development aid only
   cfgs = configs(tier)
   cfg_by_name = {c["name"]: c for c in cfgs}
   progs = make_programs(seed, nprog)
